@@ -945,3 +945,57 @@ Proof.
   - replace (i =? 0) with true by lia. cbn. lia.
   - destruct (Z.eqb_spec i 0) as [->|Hi0]; destruct endpoint; cbn [fst snd]; repeat split; try lia; ring.
 Qed.
+
+(* ------------------------------------------------------------------------------------------ *)
+(* element types of the joining views                                                          *)
+
+Lemma round_sig_small p n : 0 < p -> Z.abs n < 2 ^ p -> round_sig p n = n.
+Proof.
+  intros Hp H. unfold round_sig.
+  assert (Z.log2 (Z.abs n) < p).
+  { destruct (Z.eq_dec (Z.abs n) 0) as [->|Hn]; [simpl; lia|]. apply Z.log2_lt_pow2; lia. }
+  replace (Z.log2 (Z.abs n) + 1 - p <=? 0) with true by lia. reflexivity.
+Qed.
+
+Lemma swrap_small w z : 0 < w -> - 2 ^ (w - 1) <= z < 2 ^ (w - 1) -> swrap w z = z.
+Proof.
+  intros Hw H. unfold swrap. assert (E : 2 ^ w = 2 * 2 ^ (w - 1)) by (rewrite <- Z.pow_succ_r by lia; f_equal; lia).
+  destruct (Z.lt_ge_cases z 0).
+  - rewrite <- (Z.mod_unique z (2 ^ w) (-1) (z + 2 ^ w)) by lia.
+    replace (z + 2 ^ w <? 2 ^ (w - 1)) with false by lia. lia.
+  - rewrite Z.mod_small by lia. replace (z <? 2 ^ (w - 1)) with true by lia. reflexivity.
+Qed.
+
+Lemma int_copy w n : 0 < w -> n mod 4 = 0 -> - 2 ^ (w - 1) <= n / 4 < 2 ^ (w - 1) -> swrap w (Z.quot n 4) * 4 = n.
+Proof.
+  intros Hw Hm Hr. assert (Hq : Z.quot n 4 = n / 4).
+  { pose proof (Z.div_mod n 4 ltac:(lia)). pose proof (Z.quot_rem' n 4).
+    assert (Z.rem n 4 = 0) by (apply Z.rem_divide; [lia|]; apply Z.mod_divide; lia). lia. }
+  rewrite Hq, swrap_small by assumption. pose proof (Z.div_mod n 4 ltac:(lia)). lia.
+Qed.
+
+(* an element of operand a survives the conversion to the view's element type exactly — under C++'s common type when it
+   agrees with NumPy's result type or the value is float32-representable, under NumPy's result type always (double-exact values) *)
+Lemma join_copy a b n : value_in a n -> round_sig 53 n = n ->
+  (cxx_common a b = np_common a b \/ round_sig 24 n = n) ->
+  conv (cxx_common a b) n = n /\ conv (np_common a b) n = n
+  /\ conv (cxx_common b a) n = n /\ conv (np_common b a) n = n.
+Proof.
+  intros Hv H53 Hc.
+  assert (Hint : forall w, 0 < w -> n mod 4 = 0 -> - 2 ^ (w - 1) <= n / 4 < 2 ^ (w - 1) -> swrap w (Z.quot n 4) * 4 = n)
+    by (intros; now apply int_copy).
+  assert (H24s : (n mod 4 = 0 /\ - 2 ^ 7 <= n / 4 < 2 ^ 7) -> round_sig 24 n = n).
+  { intros [Hm Hr]. apply round_sig_small; [lia|]. pose proof (Z.div_mod n 4 ltac:(lia)). lia. }
+  destruct a, b; cbn [cxx_common np_common is_float width Z.ltb conv value_in] in *;
+    repeat match goal with |- _ /\ _ => split end;
+    try assumption; try (destruct Hc as [Hc|Hc]; [discriminate Hc | assumption]);
+    try (apply H24s; cbn in Hv; exact Hv);
+    try (destruct Hv as [Hm Hr]; apply Hint; [lia | assumption | cbn in Hr |- *; lia]).
+Qed.
+
+Lemma arange_elem_cxx_spec fl start p q i : 0 < q -> 0 <= i -> (q = 1 -> fl = true -> 0 <= p /\ i * p < 2 ^ 64) ->
+  arange_elem_cxx fl start p q i = arange_elem start p q i.
+Proof.
+  intros Hq Hi H. unfold arange_elem_cxx, arange_elem. destruct (Z.eqb_spec q 1) as [->|]; [|reflexivity].
+  destruct fl; [|reflexivity]. cbn [andb]. destruct (H eq_refl eq_refl) as [Hp Hb]. rewrite wrap_small by nia. ring.
+Qed.
